@@ -366,4 +366,12 @@ class ReachingDefs(object):
             for t, v in zip(st.targets[0].elts, st.value.elts):
                 if isinstance(t, ast.Name) and t.id == name:
                     return v
+        # a, b = f(...)  ->  a is f(...)[0]
+        if defnode.kind == 'stmt' and isinstance(st, ast.Assign) and len(st.targets) == 1 \
+                and isinstance(st.targets[0], (ast.Tuple, ast.List)) \
+                and isinstance(st.value, (ast.Call, ast.Name, ast.Attribute, ast.Subscript)):
+            for i, t in enumerate(st.targets[0].elts):
+                if isinstance(t, ast.Name) and t.id == name:
+                    sub = ast.Subscript(value=st.value, slice=ast.Constant(value=i), ctx=ast.Load())
+                    return ast.copy_location(sub, st.value)
         return None
